@@ -160,7 +160,7 @@ def check_c07(pid, tier, seed, replay=None):
     bindir = vlib.build('asan')
     quick = (tier != 'thorough')
     scs = []
-    files = ['B','C','D','E','H','I','J','K','N','P'] + ([] if quick else ['A','F','G','L','M','O','Q'])
+    files = ['B','C','D','E','H','I','J','K','N','P','V','X'] + ([] if quick else ['A','F','G','L','M','O','Q'])
     if quick: files_hist = files + ['F']
     else: files_hist = files
     # TLC-generated histories (spec -> code)
@@ -185,7 +185,7 @@ def check_c08(pid, tier, seed, replay=None):
     t0 = time.time(); rng = random.Random(seed*7919+8)
     bindir = vlib.build('asan')
     quick = (tier != 'thorough')
-    files = ['B','C','D','H','I','J','N','P','F'] + ([] if quick else ['A','E','G','K','L','M','O','Q'])
+    files = ['B','C','D','H','I','J','N','P','F','V','X'] + ([] if quick else ['A','E','G','K','L','M','O','Q'])
     scs = []
     for f in files:
         big = f in ('F','G','M')
@@ -239,7 +239,7 @@ def check_c09(pid, tier, seed, replay=None):
         C.FILES[key] = ' '.join(toks)
         extra_files[key] = C.FILES[key]
         scs.append(fam_linear(key, name=f'chain{i}-{k}links', lens=(4096,) if i%3 else (1,333,100000)))
-    for f in ['B','C','D','E','I','J','N','P','Q']:
+    for f in ['B','C','D','E','I','J','N','P','Q','V','X']:
         scs.append(fam_linear(f, name=f'chain-{f}'))
     # file ids collide across scenarios only if they share a script: pin each generated file to its own id per bucket by unique ids modulo 40
     res = run_batch(pid, tier, scs, bindir, nproc=16)
@@ -254,7 +254,7 @@ def check_c10(pid, tier, seed, replay=None):
     t0 = time.time(); rng = random.Random(seed*7919+10)
     bindir = vlib.build('asan')
     quick = (tier != 'thorough')
-    files = ['B','C','D','E','I','K','N'] + ([] if quick else ['A','H','J','L','M','O','P','Q','F'])
+    files = ['B','C','D','E','I','K','N','X'] + ([] if quick else ['A','H','J','L','M','O','P','Q','F','V'])
     scs = []
     srs = [(1,0),(2,1),(2,2),(3,7),(3,27),(3,28),(3,255),(4,0),(4,1),(4,-1),(5,0),(5,1),(5,3),(3,4096)]
     if not quick: srs += [(2,s) for s in range(3,40)] + [(3,k) for k in (2,3,5,26,29,100,281,282,283,1000,2047)] + [(4,k) for k in (-3,2,5,26,27,28)] + [(5,k) for k in range(-5,30)]
@@ -265,6 +265,14 @@ def check_c10(pid, tier, seed, replay=None):
             for (m,a) in (srs if not quick else rng.sample(srs, 5)):
                 if m == 1 and f in ('F','G','M','A','L','H','Q','P'): continue   # one byte at a time: keep to small files
                 scs.append(fam_linear(f, mode=mode, lens=(4096,) if rng.random()<0.6 else (7,1000,100000), name=f'sr{m}_{a}-{mode}-{f}', extra_pre=[f'sr 0 {m} {a}'], tag=('shortread',)))
+        # integer reads through ov_read_filter with a gain-1/2 filter under a schedule of requested lengths (each sample must be filtered exactly once)
+        if f in ('B','K','X','E'):
+            for mode in ('seek','stream'):
+                ls = [f'open 0 {fid(f)} {mode}']
+                Ls = [4, 1000, 256, 4096, 37, 65536, 8, 700]; rng.shuffle(Ls)
+                for i in range(120 if quick else 600): ls.append(f'rig 0 {Ls[i % len(Ls)]} 2 1 {i % 2}')
+                ls += ['clear 0']
+                scs.append(Scenario(f'gainfilter-{mode}-{f}', [f], ls, 'filter-lengths-'+mode, budget=60))
         # initial-bytes variants: some data already read by the application
         for init in (1, 27, 58, 4096):
             scs.append(fam_linear(f, mode='stream', name=f'init{init}-{f}', lens=(4096,), extra_pre=[]))
@@ -373,7 +381,7 @@ def check_c20(pid, tier, seed, replay=None):
     t0 = time.time(); rng = random.Random(seed*7919+20)
     bindir = vlib.build('asan')
     quick = (tier != 'thorough')
-    files = ['B','C','D','I','N','T','R','S','K'] + ([] if quick else ['A','E','H','J','L','M','P','Q','F','U'])
+    files = ['B','C','D','I','N','T','R','S','K','V','X'] + ([] if quick else ['A','E','H','J','L','M','P','Q','F','U'])
     scs = []
     for f in files:
         for mode in ('seek','stream'):
@@ -595,7 +603,7 @@ def check_c17(pid, tier, seed, replay=None):
                     ls.append(f'ri 0 {L} {w} {sg} {be}')
             ls += ['ri 0 4096 0 1 0', 'ri 0 4096 -1 1 0', 'rf 0 64', 'ri 0 64 2 1 0']
             if mode == 'seek': ls += ['ps 0 f:0:1:2:1', 'ri 0 4096 2 1 1', 'hr 0 1', 'ri 0 4096 2 0 0', 'ri 0 4096 1 1 0']
-            ls += ['rfn 0 4096 -1', 'ri 0 4096 2 1 0', 'clear 0']
+            ls += ['rig 0 100 2 1 0', 'rig 0 7 1 0 0', 'rig 0 4096 2 0 1', 'rig 0 64 1 1 0', 'rfn 0 4096 -1', 'ri 0 4096 2 1 0', 'clear 0']
             scs.append(Scenario(f'pack-real-{mode}-{f}', [f], ls, 'pack-real', budget=60))
         # (b) injected TLC-chosen values through ov_read_filter: all formats, value list rotated so every value meets every channel slot
         nrot = 3 if quick else 12
